@@ -137,6 +137,7 @@ structure SpecWF (spec : Spec) : Prop where
     getBonds so.struct = .ok so.bonds
   structLen : ∀ so ∈ spec.structs, so.len = ((structStrands spec so).map (fun q => q.2.len)).sum
   equal : ∀ its ∈ spec.equals, ∀ i ∈ its, (spec.findSeq i.name).isSome = true
+  seqNames : (spec.seqs.map (·.name)).Nodup
   supEarlier : ∀ (i : Nat) (o : SeqObj), spec.seqs[i]? = some o → o.isSup = true →
     ∀ it ∈ o.items, ∃ j o', j < i ∧ spec.seqs[j]? = some o' ∧ spec.findSeq it.name = some o'
 
